@@ -434,6 +434,9 @@ pub fn exch_step_1b(
 ) -> Sm9Result<(Point, Vec<u8>)> {
     // B1: Q = H1(ID_A||hid,N) * P1 + Ppube
     let mut rb = sm9_u256_hash1(ida, SM9_HID_EXCH);
+    if klen == 0 {
+        return Err(Sm9Error::KdfHashError);
+    }
     let mut q = SM9_POINT_MONT_P1.point_mul(&rb);
     q = q.point_add(&msk.ppube);
     let mut r;
@@ -543,6 +546,8 @@ pub fn exch_step_2a(
         if !is_zero(&sk, klen) {
             break;
         }
+        // nothing in this step is random: trying again would compute the same all-zero key forever
+        return Err(Sm9Error::KdfHashError);
     }
     Ok(sk)
 }
